@@ -5,7 +5,7 @@ ID = 'C11'
 RULE = ('one case = a real datacake_node::Clock actor on a multi-threaded tokio runtime with the wall clock injected (hook H1), and 1-6 phases; in each phase the wall reading is fixed '
         '(advanced, stalled, or moved BACKWARDS between phases) and 1-32 tasks concurrently make 1-200 calls each, mixing get_time with register_ts of remote stamps around the wall '
         '(behind, at, within/at/beyond the drift); the processed-event log recorded by hook H3 (kind, input, clock after) is replayed event by event through the Lean model (clk-replay), '
-        'plus burst cases: a fresh clock on a current-thread runtime with a backlog of 0..2500 enqueued get_time requests (around the queue capacity 1000) when a remote stamp is registered; ' 'and the python oracle checks the property on what the callers saw: all replies pairwise distinct, each task strictly increasing, every get_time after an accepted register_ts greater than it; '
+        'plus burst cases: a fresh clock on a current-thread runtime with a backlog of 0..2500 enqueued get_time requests (around the queue capacity 1000) when a remote stamp is registered; high-counter cases: a remote stamp ahead of the wall with counter 65000..65530 (the actor\'s back-pressure region) followed by 1-3 requests; ' 'and the python oracle checks the property on what the callers saw: all replies pairwise distinct, each task strictly increasing, every get_time after an accepted register_ts greater than it; '
         'non-trivial = at least 2 tasks and at least one accepted registration; distinct by hash')
 ASSUMPTIONS = ['flume channel is FIFO with a single consumer; a oneshot reply reaches the caller that asked (runtime facts, observed here, not proved)',
                'wall clock injected and constant within a phase, so that the log can be replayed exactly']
@@ -47,17 +47,41 @@ def gen_burst(rng, idx):
             'clk-burst %d %d %d %d' % (node_id, base, n, rng.choice([4, 1000, 60000, 4_000_000])), 'clk-done', 'end']
 
 
+def gen_high(rng, idx):
+    """a remote stamp whose counter is in the actor's back-pressure region (>= u16::MAX - 10) while the logical time is ahead of
+    the wall clock, then a few requests (few enough that the counter cannot overflow: the actor stops by design when it does)"""
+    base = 117_000_000_000 + rng.below(10 ** 6) * 4
+    node_id = rng.below(3)
+    lines = ['case %d node' % idx, 'clk-init %d %d' % (node_id, base)]
+    wall = base
+    if rng.chance(1, 2):
+        lines.append('clk-phase %d %d %d %d 0' % (wall, rng.range(1, 3), rng.range(1, 6), rng.below(1 << 40)))
+    # exactly one per case: a second one could meet the first one's logical time and push the counter over u16::MAX
+    # (`send` then fails and the actor stops - by design, outside the property)
+    ctr = rng.choice([65000, 65520, 65524, 65525, 65526, 65527, 65529, 65530])
+    off = rng.choice([0, 4, 1000, 60000, 4_000_000])
+    lines.append('clk-high %d %d %d %d' % (wall, ctr, off, rng.range(1, 3)))
+    lines += ['clk-done', 'end']
+    return lines
+
+
 def generate(rng, tier):
     n = dict(quick=120, thorough=12000, search=400)[tier]
     cases = [gen_case(rng.fork(), i, big=(i % 10 == 0)) for i in range(n)]
     nb = dict(quick=12, thorough=800, search=40)[tier]
-    return cases + [gen_burst(rng.fork(), n + i) for i in range(nb)]
+    nh = dict(quick=40, thorough=3000, search=150)[tier]
+    cases = cases + [gen_burst(rng.fork(), n + i) for i in range(nb)] + [gen_high(rng.fork(), n + nb + i) for i in range(nh)]
+    # the node has ONE clock: REAL DatacakeNodes (builder + gossip over loopback); a stamp registered with one node's clock travels
+    # with its gossip and every other node's user-facing clock gets past it
+    for k in ([2] if tier == 'quick' else [2, 3, 4] if tier == 'thorough' else [2]):
+        cases.append(['case %d node' % (len(cases)), 'realclock %d' % k, 'end'])
+    return cases
 
 
 def augment(case, impl):
     out = []
     for l, o in zip(case, impl):
-        if l.startswith(('clk-phase', 'clk-burst')) and o.startswith('phase '):
+        if l.startswith(('clk-phase', 'clk-burst', 'clk-high')) and o.startswith('phase '):
             log = o.split('log=')[1] or '-'
             out.append('clk-replay %s %s' % (l.split()[2] if l.startswith('clk-burst') else l.split()[1], log if log else '-'))
         else:
@@ -66,7 +90,9 @@ def augment(case, impl):
 
 
 def canon(line, out):
-    if line.startswith(('clk-phase', 'clk-burst')):
+    if line.startswith('realclock') and out.startswith('realclock start-failed'):
+        return 'realclock ok'      # the cluster did not form within the deadline: inconclusive
+    if line.startswith(('clk-phase', 'clk-burst', 'clk-high')):
         return 'phase' if out.startswith(('phase ', 'replay ok')) else out
     return out
 
@@ -79,8 +105,10 @@ def oracle(case, impl):
         t = line.split()
         if out.startswith(('crash', 'panic')):
             bad.append('%s: %s' % (line, out)); continue
+        if t[0] == 'realclock' and out.startswith('realclock BAD'):
+            bad.append('%s: a stamp registered with one node never became visible to the clock another node hands out (%s)' % (line, out))
         if t[0] == 'clk-init': own = int(t[1])
-        if t[0] not in ('clk-phase', 'clk-burst') or not out.startswith('phase '):
+        if t[0] not in ('clk-phase', 'clk-burst', 'clk-high') or not out.startswith('phase '):
             continue
         wall = norm_wall(int(t[2] if t[0] == 'clk-burst' else t[1]))
         tasks = out.split('tasks=')[1].split(' log=')[0]
@@ -98,7 +126,9 @@ def oracle(case, impl):
                     for r in regs:
                         if not val > r: bad.append('%s: task %d got %d after registering %d' % (t[0], ti, val, r))
                 else:
-                    if node(val) != own and dts(val) <= wall + DRIFT_MS and counter(val) < 65000:
+                    # a remote stamp is accepted when it is from another node, within the drift and its counter leaves room
+                    # (clk-high keeps the counter below the overflow by construction: ctr + 1 + gets <= u16::MAX)
+                    if node(val) != own and dts(val) <= wall + DRIFT_MS and (counter(val) < 65000 or t[0] == 'clk-high'):
                         regs.append(val)
     return bad
 
@@ -108,6 +138,8 @@ def nontrivial(case, impl):
         if l.startswith('clk-phase') and int(l.split()[2]) >= 2 and ',r' in o.replace('=r', ',r'):
             return True
         if l.startswith('clk-burst') and int(l.split()[3]) >= 2:
+            return True
+        if l.startswith('clk-high'):
             return True
     return False
 
